@@ -25,7 +25,13 @@ import (
 func init() {
 	Register(&Scenario{Name: "c19replay", Prop: "C19", MaxSteps: 400000, Run: func(rc *RunCtx) { runC07c(quiet(rc), true) }, Post: postC19Replay})
 	Register(&Scenario{Name: "c19keys", Prop: "C19", MaxSteps: 100000, Run: runC19Keys, Post: postC19Keys})
-	Register(&Scenario{Name: "c19nat", Prop: "C19", MaxSteps: 100000, Run: func(rc *RunCtx) { runUDP(quiet(rc), "c03") }})
+	Register(&Scenario{Name: "c19nat", Prop: "C19", MaxSteps: 100000, Tick: true, Run: func(rc *RunCtx) {
+		if rc.G.Draw(2) == 0 {
+			runUDP(quiet(rc), "c03")
+		} else {
+			runC14(quiet(rc)) // expiry, fast close and shutdown paths of the association table
+		}
+	}})
 	Register(&Scenario{Name: "c19met", Prop: "C19", MaxSteps: 100000, Tick: true, Run: func(rc *RunCtx) { runC17(quiet(rc)) }})
 	Register(&Scenario{Name: "c19tcp", Prop: "C19", MaxSteps: 200000, Run: func(rc *RunCtx) {
 		if rc.G.Draw(2) == 0 {
